@@ -168,7 +168,7 @@ theorem step_inv (s : St) (e : Ev) (h : Inv s) : Inv (step s e).1 := by
     split
     · exact h
     · obtain ⟨h1, h2, h3, h4, h5⟩ := h
-      constructor <;> simp only [upd_apply, Cache.ident] at * <;> grind
+      constructor <;> simp only [upd_apply, Cache.completeFuts, Cache.ident] at * <;> grind
   | clear =>
     obtain ⟨h1, h2, h3, h4, h5⟩ := h
     constructor <;> simp only [step, lookup_nil] <;> grind
@@ -260,7 +260,7 @@ theorem step_count (s : St) (e : Ev) (c : Nat) (h : Inv s) :
     simp only [step]
     split
     · simp [resN, addN]
-    · simp only [resN, addN, outN, upd_apply]; grind
+    · simp only [resN, addN, outN, upd_apply, Cache.completeFuts]; grind
   | clear => simp only [step, resN, addN, outN]; grind
   | shutdown =>
     simp only [step]
@@ -487,7 +487,7 @@ theorem step_count_eq (s : St) (e : Ev) (c : Nat) (h : Inv s) (hd : isDrop e = f
     simp only [step]
     split
     · simp [resN, addN]
-    · simp only [resN, addN, outN, upd_apply]; grind
+    · simp only [resN, addN, outN, upd_apply, Cache.completeFuts]; grind
   | clear => simp [isDrop] at hd
   | shutdown => simp [isDrop] at hd
   | futSet c0 i =>
@@ -514,6 +514,38 @@ theorem run_count_eq (s : St) (evs : List Ev) (c : Nat) (h : Inv s) (hd : ∀ e 
   | cons e es ih =>
     have h1 := step_count_eq s e c h (hd e (by simp))
     have h2 := ih _ (step_inv s e h) (fun e' he' => hd e' (by simp [he']))
+    rw [resN_eq, addN_eq] at h1
+    simp only [trace_cons, final_cons, List.count_cons]
+    omega
+
+/-- `clear`/`shutdown` never hit request c while it is outstanding, along the run from s -/
+def NoDropWhileOutstanding (s : St) (c : Nat) : List Ev → Prop
+  | [] => True
+  | e :: es => (isDrop e = true → ¬ outstanding s c) ∧ NoDropWhileOutstanding (step s e).1 c es
+
+theorem step_count_eq' (s : St) (e : Ev) (c : Nat) (h : Inv s) (hd : isDrop e = true → ¬ outstanding s c) :
+    resN (step s e).2 c + outN (step s e).1 c = addN (step s e).2 c + outN s c := by
+  cases hde : isDrop e with
+  | false => exact step_count_eq s e c h hde
+  | true =>
+    have h0 : outN s c = 0 := outN_zero_of_not (hd hde)
+    cases e <;> simp [isDrop] at hde
+    · simp [step, resN, addN, outN] at h0 ⊢
+      exact h0
+    · simp only [step]
+      split
+      · simp [resN, addN]
+      · simp only [resN, addN, outN] at h0 ⊢
+        by_cases hv : hasVal c s.ids = true <;> simp_all [Cache.cancelFuts]
+
+theorem run_count_eq' (s : St) (evs : List Ev) (c : Nat) (h : Inv s) (hd : NoDropWhileOutstanding s c evs) :
+    (trace s evs).count (.claimed c) + (trace s evs).count (.timedOut c) + outN (final s evs) c
+      = (trace s evs).count (.added c) + outN s c := by
+  induction evs generalizing s with
+  | nil => simp [trace_nil, final_nil]
+  | cons e es ih =>
+    have h1 := step_count_eq' s e c h hd.1
+    have h2 := ih _ (step_inv s e h) hd.2
     rw [resN_eq, addN_eq] at h1
     simp only [trace_cons, final_cons, List.count_cons]
     omega
